@@ -108,6 +108,10 @@ impl<Error: Send + 'static> DecodeScheduler<Error> {
 					crate::verif::point("decode_error", Arc::as_ptr(&self.shared) as usize, 0);
 					self.error_producer.push(error).ok();
 					self.shared.encountered_error.store(true, Ordering::SeqCst);
+					// the sound stops once it sees the error; there's nothing
+					// left to decode, so end the thread instead of retrying in
+					// a tight loop
+					break;
 				}
 			}
 		});
